@@ -244,6 +244,13 @@ def step (line : String) : String :=
     | some text => fieldsAnswer text
     | none => "bad-op"
   | ["sorts", a] => sortsAnswer a
+  | ["pe", h] =>
+    match unhex h with
+    | some text =>
+      (match parseExprChars text with
+       | some e => "t " ++ dump e
+       | none => "err")
+    | none => "bad-op"
   | "codec" :: _ => "ok"
   | "opts" :: args => Wire.optsAnswer dump condOf args
   | ["wiredesc", m] => Wire.wiredescAnswer m
